@@ -51,6 +51,10 @@ type mismatch struct {
 	Cut       int      `json:"cut"`
 	Lag       int      `json:"lag"`
 	Chunk     int64    `json:"chunk"`
+	// trimreplay (C07): the TrimReplay.tla behaviour, what the real node was observed to be, the WAL segment size
+	Case     json.RawMessage `json:"case,omitempty"`
+	Observed json.RawMessage `json:"observed,omitempty"`
+	Seg      int             `json:"seg,omitempty"`
 }
 
 var scope = map[string]bool{"res": true, "recs": true, "lv": true, "idx": true, "shadow": true, "nf": true}
@@ -1214,7 +1218,7 @@ func cmdCrashpoints(args []string) int {
 
 func main() {
 	if len(os.Args) < 2 {
-		fmt.Fprintln(os.Stderr, "usage: routecheck replay|drive|rerun|live|crashpoints ...")
+		fmt.Fprintln(os.Stderr, "usage: routecheck replay|drive|rerun|live|crashpoints|trimreplay ...")
 		os.Exit(2)
 	}
 	switch os.Args[1] {
@@ -1228,6 +1232,8 @@ func main() {
 		os.Exit(cmdLive(os.Args[2:]))
 	case "crashpoints":
 		os.Exit(cmdCrashpoints(os.Args[2:]))
+	case "trimreplay":
+		os.Exit(cmdTrimReplay(os.Args[2:]))
 	}
 	os.Exit(2)
 }
